@@ -29,12 +29,15 @@ RULE = ("Hypothesis-generated programs of scenario-API calls (<= 14 operations: 
         "sibling / cousin / other-depth group, all observer kinds, several schedules; the history monitor with the "
         "reference group semantics decides whose sub-steps the observer may follow. Differential (metamorphic): a "
         "program containing calls with valid and invalid pairs must run exactly like the same program without the "
-        "invalid pairs (same outcome, same per-simulator sequence of (time, inputs)); complete table of such calls "
-        "with a destination that steps by itself or only when triggered. non-trivial = a connect call "
+        "invalid pairs - or without the failing calls - (same outcome, same per-simulator sequence of (time, inputs)); "
+        "complete table of such calls with a destination that steps by itself or only when triggered (hybrid, event-based). non-trivial = a connect call "
         "with >= 1 invalid and >= 1 valid pair, or simulators in different groups, or a scoping run with sub-steps; "
         "distinct = distinct programs / scenarios")
 ASSUMPTIONS = [
     "attribute classification of the generated descriptions is taken from C12's reference solver",
+    "the statement does not say whether the valid pairs of a connect() call that raises are established (mosaik "
+    "establishes them) or the whole call is void: both readings are accepted (the run must equal the clean program "
+    "of one of them; only pairs of calls that returned normally are required to deliver data)",
     "connect calls that combine async_requests=True with an invalid pair are not generated (the statement is "
     "silent on whether the async relation of a failing call stays)",
 ]
@@ -77,6 +80,7 @@ class Interp:
         self.pairs_touched = set()
         self.graph_edges = set()
         self.clean_ops = []
+        self.clean_ops_atomic = []
         self.slot_feeds = {}     # (src entity, dst entity, dst attr) -> source attrs (two of them collide in one dict key)
         self.final = None
         self.fails = []
@@ -96,6 +100,7 @@ class Interp:
         k = o[0]
         if k != "connect":
             self.clean_ops.append(o)
+            self.clean_ops_atomic.append(o)
         if k == "enter":
             if len(self.path) >= 2:
                 return
@@ -195,6 +200,8 @@ class Interp:
             if good or asyncr:
                 o2 = [o[0], o[1], o[2], good, dict(o[4], **{"async": asyncr})]
                 self.clean_ops.append(o2)
+                if not bad:
+                    self.clean_ops_atomic.append(o2)     # all-or-nothing reading: a call with a rejected pair is void
             raised = None
             try:
                 self.w.connect(src["ent"], dst["ent"], *pairs, **kw)
@@ -225,7 +232,7 @@ class Interp:
                 kind = "weak" if weak else ("shift" if shift else "plain")
                 self.accepted.setdefault((src["sid"], sa, dst["sid"], da), []).append(
                     dict(kind=kind, shift=int(shift), persistent=mask_has(p, sa if sa in NAMES else "z"),
-                         trigger=mask_has(t, da if da in NAMES else "z")))
+                         trigger=mask_has(t, da if da in NAMES else "z"), call_raised=raised is not None))
                 self.edges.append((src["sid"], dst["sid"], kind))
                 self.graph_edges.add(frozenset((src["ent"].full_id, dst["ent"].full_id)))
             if asyncr:
@@ -301,6 +308,10 @@ class Interp:
             # judged only if the source stepped and the destination stepped late enough to see that output
             # (a strictly later integer time: within one time the source may run at a later sub-step)
             due = any(td >= ts + sh + 1 for ts in stepped.get(k[0], []) for td in stepped.get(k[2], []))
+            # The statement does not say whether the *valid* pairs of a call that raises are established (mosaik does
+            # establish them) or the whole call is void; only pairs of calls that returned normally must deliver.
+            if all(i_["call_raised"] for i_ in infos):
+                continue
             if slot not in seen and due:
                 self.fails.append(Failure("C11.missing_dataflow", "C11.missing_dataflow",
                                           f"accepted pair {k} {infos} never delivered a value to {k[2]}"))
@@ -325,30 +336,40 @@ def check_case_api(case, acc):
         it.finish(case.get("until", 3))
     finally:
         it.close()
-    # differential: "a rejected attribute pair leaves no data-flow behind" and the accepted pairs of the same call
-    # are ordinary data-flows: the program must behave exactly like the same program without the invalid pairs
+    # differential: "a rejected attribute pair leaves no data-flow behind": the program must behave exactly like the
+    # same program without the invalid pairs (or, second admissible reading, without the failing calls)
     ambiguous = any(len(v) > 1 for v in it.slot_feeds.values())   # which value wins depends on set order
     if it.stats["mixed_calls"] > 0 and it.final is not None and not ambiguous:
-        it2 = Interp()
-        try:
-            for o in it.clean_ops:
-                it2.op(o)
-            it2.finish(case.get("until", 3))
-        finally:
-            it2.close()
-        if it2.final is not None and it2.stats["rejected_calls"] == 0:
+        # per simulator (the interleaving of different simulators is not part of the contract)
+        def per_sim(steps):
+            d = {}
+            for sid, t, inp in steps:
+                d.setdefault(sid, []).append((t, inp))
+            return core.jnorm(d)
+        # two admissible readings of a call that raises: its valid pairs are ordinary data-flows (what mosaik does),
+        # or the whole call is void.  The run must equal the clean program of one of them.
+        verdicts = []
+        for ops in (it.clean_ops, it.clean_ops_atomic):
+            it2 = Interp()
+            try:
+                for o in ops:
+                    it2.op(o)
+                it2.finish(case.get("until", 3))
+            finally:
+                it2.close()
+            if it2.final is None or it2.stats["rejected_calls"] != 0:
+                verdicts = None
+                break
             a, b = it.final, it2.final
-            # per simulator (the interleaving of different simulators is not part of the contract)
-
-            def per_sim(steps):
-                d = {}
-                for sid, t, inp in steps:
-                    d.setdefault(sid, []).append((t, inp))
-                return core.jnorm(d)
-            if a[0] != b[0] or per_sim(a[1]) != per_sim(b[1]):
-                it.fails.append(Failure("C11.partial_connect_differs", f"C11.partial_connect_differs|{a[0]}_vs_{b[0]}",
-                                        f"a program with rejected pairs ends with {a[0]} ({len(a[1])} steps), the same "
-                                        f"program without the invalid pairs with {b[0]} ({len(b[1])} steps)"))
+            verdicts.append((a[0] == b[0] and per_sim(a[1]) == per_sim(b[1]), b))
+            if verdicts[-1][0]:
+                break
+        if verdicts and not any(v[0] for v in verdicts):
+            a, b = it.final, verdicts[0][1]
+            it.fails.append(Failure("C11.partial_connect_differs", f"C11.partial_connect_differs|{a[0]}_vs_{b[0]}",
+                                    f"a program with rejected pairs ends with {a[0]} ({len(a[1])} steps); the same "
+                                    f"program without the invalid pairs ends with {b[0]} ({len(b[1])} steps), and "
+                                    f"it does not equal the program without the failing calls either"))
     nontrivial = it.stats["mixed_calls"] > 0 or it.stats["cross_group"] > 0
     cls = [k for k, v in it.stats.items() if v]
     acc.record(case, nontrivial, cls)
@@ -391,8 +412,9 @@ def mixed_programs():
     same program without the invalid pair: the destination steps by itself or only when triggered"""
     places = [((), ()), ((0,), (0,)), ((0,), ()), ((0,), (1,)), ((0, 0), (0,))]
     desc = describe("hybrid", ["a", "b", "c"], ["b"], ["c"], False)
+    ev_desc = describe("event-based", ["a", "b", "c"], None, None, False)
     for pa, pb in places:
-        for no_self in (False, True):
+        for no_self in (False, True, "event-based"):
             for good in (["a", "a"], ["a", "b"], ["c", "b"], ["c", "a"]):
                 for badp in (["q", "a"], ["a", "q"], ["q", "b"]):
                     for order in (0, 1):
@@ -400,7 +422,11 @@ def mixed_programs():
                             ops = placement_ops(pa, pb, desc)
                             if no_self:
                                 last = max(i for i, o_ in enumerate(ops) if o_[0] == "start")
-                                ops[last] = ops[last] + [{"no_self_step": True}]
+                                if no_self == "event-based":
+                                    # an event-based destination: no step of its own at all, only the triggers
+                                    ops[last] = ["start", "event-based", ev_desc, {"no_self_step": True}]
+                                else:
+                                    ops[last] = ops[last] + [{"no_self_step": True}]
                             pairs = [good, badp] if order == 0 else [badp, good]
                             ops.append(["connect", 0, 1, pairs, {"shift": shift, "weak": False,
                                                                  "init": [good[0]] if shift else []}])
